@@ -41,10 +41,13 @@ def tailStr (ev new : Nat) (regChanged : Bool) (before after : String) : String 
     (if st = before then "same" else s!"changed:{before}>{st}")
 
 def admReq (s : AdmState) (kind method tv sidTok ev org : String) : AdmState × String :=
+  -- one or more values of the sid parameter, joined by "+": s<n> a session, e the empty string, x<hex> that text
   let sid : List String :=
     if sidTok = "-" then []
-    else if sidTok.startsWith "s" then [sidTok]
-    else [asciiOf (unhex (sidTok.drop 1).toString)]
+    else (sidTok.splitOn "+").map fun tok =>
+      if tok = "e" then ""
+      else if tok.startsWith "s" then tok
+      else asciiOf (unhex (tok.drop 1).toString)
   let r : Request := { upgrade := kind = "ws", method := method, transport := unCsvHex tv, sid := sid,
                        eio := unCsvHex ev, origin := unhex org }
   let before := statesStr s.sess
